@@ -131,6 +131,42 @@ def gen_backtoback(rng):
     return ops
 
 
+def wake_families():
+    """directed, deterministic: the three ways a wake-up goes astray once several waiters are queued —
+    (A) the woken waiter is cancelled before it has run (it gives up; the others must still be served),
+    (B) a waiter resumed by hand by the main context re-registers (duplicate tokens), then normal traffic,
+    (C) a woken waiter that parks in an unrelated wait() before the next wake (a stale token would hit it there).
+    For channel, semaphore, mutex, and (one waiter each / wake-all) condition and broadcast."""
+    for kind in ('ch', 'sm', 'mx', 'bc', 'cd'):
+        for nw in (2, 3):
+            for tail in ('', ',w', ',y'):
+                w = {'ch': 'r0', 'sm': 'a0', 'mx': 'l0,u0', 'bc': 'b0', 'cd': 'ca0:1,cw0'}[kind]
+                sig = {'ch': 's0:5', 'sm': 'v0', 'mx': 'l0,w,u0', 'bc': 'p0', 'cd': 'cp0:1'}[kind]
+                defs = ['def 0 ' + w + tail, 'def 0 ' + w, 'def 0 ' + sig]
+                if kind == 'mx':
+                    base, first, mk = 1, ['new 2 1'], ['new 0 1'] + ['new 1 1'] * (nw - 1)
+                    sig1, sig2 = ['resume 0'], ['pass']          # the holder unlocks; later the waiters' own unlocks signal
+                else:
+                    base, first, mk = 0, [], ['new 0 1'] + ['new 1 1'] * (nw - 1)
+                    sig1 = sig2 = ['new 2 1']
+                W = lambda k: base + k
+                for k in range(min(nw, 2)):
+                    # (A) cancel the woken waiter k in the same round, before it runs; also: both waiters cancelled
+                    yield defs + first + mk + sig1 + ['cancel %d' % W(k), 'pass', 'pass'] + sig2 + ['pass', 'pass']
+                    yield defs + first + mk + sig1 + ['cancel %d' % W(k)] + sig2 + ['pass', 'pass', 'pass']
+                    # cancelled while still waiting (stale token stays queued), then traffic
+                    yield defs + first + mk + ['cancel %d' % W(k)] + sig1 + ['pass'] + sig2 + ['pass', 'pass']
+                    # (B) spurious resume of waiter k (registers again), then one and two signals
+                    yield defs + first + mk + ['resume %d' % W(k)] + sig1 + ['pass'] + sig2 + ['pass', 'pass']
+                    yield defs + first + mk + ['resume %d' % W(k), 'resume %d' % W(k)] + sig1 + ['pass', 'pass'] + sig2 + ['pass', 'pass', 'resume %d' % W(0), 'pass']
+                # (B) exactly as seeded/C18-2 trigger B: first waiter alone, resumed by hand, the others queue behind it
+                yield defs + first + ['new 0 1', 'resume %d' % W(0)] + ['new 1 1'] * (nw - 1) + sig1 + ['pass'] + sig2 + ['pass', 'pass', 'resume %d' % W(0), 'pass']
+                # (C) no interference: first waiter served, parks (tail), second signal must reach the next one
+                yield defs + first + mk + sig1 + ['pass'] + sig2 + ['pass', 'pass', 'resume %d' % W(0), 'pass']
+                # spurious resume of a woken-but-not-yet-run waiter and of the parked one
+                yield defs + first + mk + sig1 + ['resume %d' % W(0), 'pass'] + sig2 + ['resume %d' % W(0), 'pass', 'pass']
+
+
 ALPHA = ['r0', 's0:1', 'l0', 'u0', 'a0', 'v0', 'y', 'b0', 'p0']
 
 
@@ -143,6 +179,8 @@ def gen(rng, tier):
     yield ['def 0 a0', 'def 0 v0,v0', 'new 0 1', 'new 0 1', 'pass', 'new 1 1', 'pass', 'pass']
     yield ['def 0 l0,y,y,u0,l0,y,y,u0', 'def 0 l0,u0', 'new 0 1', 'new 1 1', 'pass', 'pass', 'pass', 'pass', 'pass', 'pass']
     yield ['def 0 r0', 'def 0 s0:7,r0', 'def 0 s0:8', 'new 0 1', 'pass', 'new 1 1', 'pass', 'new 2 1', 'pass', 'pass']
+    for ops in wake_families():
+        yield ops
     n = 500 if tier == 'quick' else 6000
     for _ in range(n):
         yield gen_case(rng)
